@@ -20,31 +20,62 @@ FILES = "command_line::files::Files"
 REF_EXT = {"lp": "programs", "spec": "specifications", "ug": "user_guides", "po": "proof_outlines"}
 
 
-def rule_ext_table(ctx):
+def sort_pushes(ctx):
+    """Files::sort evaluated symbolically: the pushes into the buckets with their path conditions and loop nests (helpers extracted from
+    Files::sort are inlined; nested loops and map / flat_map chains are one canonical nest)"""
+    from .. import sym, leaves
     fx = ctx.facts
     b = fx.fn("Files::sort")
-    site = ctx.site(b)
-    # the match whose arms are string-literal Option patterns
-    cands = []
-    for m in hq.nodes(b["body"], "Match"):
-        rows = hq.match_table(m, value=lambda e: hq.field_path(e))
-        lits = [r for r in rows if r[0].startswith('Option::Some("')]
-        if lits:
-            cands.append((m, rows))
-    if len(cands) != 1:
-        raise AnalysisGap("Files::sort: expected exactly one extension match, found %d" % len(cands))
-    m, rows = cands[0]
-    table = {}
-    default = []
-    for key, val, arm in rows:
-        if val is None:
-            ctx.bad("TAB-EXT", "arm:%s" % key, site, "arm does not evaluate to a bucket field of the result")
+    ev = sym.Eval(fx)
+    ev.effect_calls = {"Vec::push", "Vec::insert", "Vec::extend", "VecDeque::push_front", "Vec::append"}
+    value = ev.function(b)
+    outs = []
+    for conds, loops, eff in ev.out:
+        if eff[0] != "emit" or eff[1] not in ev.effect_calls:
             continue
-        bucket = val.split(".", 1)[1] if "." in val else val
-        if key.startswith('Option::Some("'):
-            table[key[len('Option::Some("'):-2]] = bucket
+        nest, mapping = leaves.loop_nest(loops)
+        cv = lambda t: leaves.strip_acc(leaves.replace(t, mapping))
+        outs.append({"conds": [(cv(c), pol) for c, pol in conds], "nest": [leaves.strip_acc(n) for n in nest], "raw_loops": len(loops), "callee": eff[1],
+                     "args": tuple(cv(a) for a in eff[2])})
+    return b, value, outs
+
+
+def rule_ext_table(ctx):
+    from .. import sym, leaves
+    b, value, outs = sort_pushes(ctx)
+    site = ctx.site(b)
+    bucket_names = set(REF_EXT.values()) | {"other"}
+
+    def is_bucket_write(o):
+        return any(isinstance(t, tuple) and t[:1] == ("fieldof",) and t[2] in bucket_names for t in sym.subterms(o["args"][0]))
+    writes = [o for o in outs if is_bucket_write(o)]
+    if len(writes) != 1:
+        raise AnalysisGap("Files::sort: expected exactly one write into the buckets, found %d" % len(writes))
+    o = writes[0]
+    recv, path = o["args"][0], o["args"][1] if len(o["args"]) > 1 else None
+    lv = leaves.leaves(recv)
+    table, default, bases, subjects = {}, [], set(), set()
+    for ts, v in lv:
+        if not (isinstance(v, tuple) and v[:1] == ("fieldof",)):
+            ctx.bad("TAB-EXT", "arm:%s" % (ts,), site, "arm does not evaluate to a bucket field of the result")
+            continue
+        bases.add(v[1])
+        eqs = [t for t in ts if t[0] == "eq"]
+        for t in ts:
+            if t[0] == "is":
+                subjects.add(t[1])
+            if t[0] == "or":
+                for alt in t[1]:
+                    for x in alt:
+                        if x[0] == "is":
+                            subjects.add(x[1])
+        if len(eqs) == 1 and isinstance(eqs[0][2], str):
+            table[eqs[0][2]] = v[2]
+            subjects.add(eqs[0][1][1] if eqs[0][1][:1] == ("proj",) else eqs[0][1])
+        elif not eqs:
+            default.append((str(ts), v[2]))
         else:
-            default.append((key, bucket))
+            ctx.bad("TAB-EXT", "arm:%s" % (ts,), site, "arm tests more than the extension")
     for ext, bucket in REF_EXT.items():
         got = table.get(ext)
         ctx.add("TAB-EXT", "ext:%s" % ext, got == bucket, site,
@@ -55,129 +86,105 @@ def rule_ext_table(ctx):
             ctx.add("TAB-EXT", "extra:%s" % ext, bucket == "other", site, "undocumented extension .%s feeds bucket %s" % (ext, bucket))
     ctx.add("TAB-EXT", "default", bool(default) and all(bk == "other" for _, bk in default), site,
             "files with other / no extension go to: %s" % sorted({bk for _, bk in default}), construct=default)
-    # the scrutinee is the extension of the path
-    sc_calls = [n.get("method") for n in walk(m["scrut"]) if n.get("k") == "MethodCall"]
-    ctx.add("TAB-EXT", "scrutinee", "extension" in sc_calls, site, "match scrutinee derives from Path::extension: %s" % sc_calls)
-    # the chosen bucket receives exactly one push of the path (append => encounter order kept)
-    pm = hq.parent_map(b["body"])
-    par = pm.get(id(m))
-    ok = par is not None and par.get("k") == "MethodCall" and par.get("method") == "push" and par.get("recv") is m \
-        and (callee(par) or "").endswith("Vec::<T, A>::push")
-    ctx.add("TAB-EXT", "push", ok, site, "the matched bucket is the receiver of Vec::push (append keeps encounter order)")
+    # the scrutinee is the extension of the very path that is pushed
+    want = ("call", "Option::and_then", (("call", "Path::extension", (path,)), ("fn", "OsStr::to_str")))
+    ctx.add("TAB-EXT", "scrutinee", subjects == {want}, site, "the bucket is chosen by Path::extension (as str) of the path that is pushed: %s" % [sym.pretty(x)[:120] for x in subjects])
+    ctx.add("TAB-EXT", "push", o["callee"] == "Vec::push" and len(bases) == 1, site,
+            "the chosen bucket receives the path through Vec::push (append keeps encounter order): %s" % o["callee"])
     # only regular files are bucketed, errors are propagated
-    trys = [n for n in walk(b["body"]) if n.get("k") == "Match" and str(n.get("src", "")).startswith("TryDesugar")]
-    ctx.add("FLOW-ERR", "Files::sort:walkdir-error", len(trys) >= 1, site, "walkdir errors are propagated with `?` (%d sites)" % len(trys))
-    ctx.count("ext_arms", len(rows))
+    elem = ("each", o["nest"][-1]) if o["nest"] else None
+    entry = ("try", elem)
+    ctx.add("TAB-EXT", "pushed-path", path == ("call", "DirEntry::into_path", (entry,)), site, "the pushed path is the path of the walked entry: %s" % sym.pretty(path)[:160])
+    ctx.add("TAB-EXT", "files-only", o["conds"] == [(("call", "FileType::is_file", (("call", "DirEntry::file_type", (entry,)),)), True)], site,
+            "the only condition on bucketing an entry is that it is a regular file: %s" % [sym.pretty(c)[:100] for c, _ in o["conds"]])
+    ctx.add("FLOW-ERR", "Files::sort:walkdir-error", entry in set(sym.subterms(path)), site, "walkdir errors are propagated with `?` before the entry is used")
+    ctx.count("ext_arms", len(lv))
 
 
 def rule_det3(ctx):
+    from .. import sym
     fx = ctx.facts
     total_new = 0
     for body in fx.body_list + [bb for bb in fx.bin["bodies"]]:
+        if body["def_path"] in fx.helpers:
+            continue
         total_new += len(hq.fn_refs(body["body"], "WalkDir::new"))
-    b = fx.fn("Files::sort")
+    b, value, outs = sort_pushes(ctx)
     site = ctx.site(b)
-    loops = hq.for_loops(b["body"])
-    bucket = [l for l in loops if any(c.get("k") == "MethodCall" and c.get("method") == "push" and any(
-        x.get("k") == "Field" and x.get("name") in ("programs", "specifications", "user_guides", "proof_outlines", "other") for x in walk(l[3])) for c in walk(l[3]))]
-    if len(bucket) != 1:
-        raise AnalysisGap("Files::sort: expected one loop that files paths into the buckets, found %d" % len(bucket))
-    ctx.add("DET-3", "single-pass", len(loops) == 1, site,
-            "the paths are bucketed in one pass over the argument list (loops in Files::sort: %d); a second pass lets one kind of argument overtake another" % len(loops))
-    _, iterable, pat, loop_body = bucket[0]
-    root, chain = hq.method_chain(iterable)
-    n_new = len(hq.fn_refs(iterable, "WalkDir::new"))
-    n_sort = len(hq.fn_refs(iterable, "WalkDir::sort_by_file_name"))
-    ctx.add("DET-3", "walkdir-sorted", n_new == 1 and n_sort == 1 and total_new == 1, site,
-            "WalkDir::new references: %d in crate, %d in the bucketing loop's iterable, sort_by_file_name there: %d" % (total_new, n_new, n_sort))
-    # order of application: new before sort_by_file_name
-    order = []
-    for c in chain:
-        for a in c["args"]:
-            for r in walk(a):
-                if r.get("k") == "Path" and "callee" in r:
-                    order.append(hq.last(r["callee"]))
-    ctx.add("DET-3", "order", order.index("new") < order.index("sort_by_file_name") if "new" in order and "sort_by_file_name" in order else False,
-            site, "adapter order in the chain: %s" % order)
-    methods = [c["method"] for c in chain]
-    allowed = {"into_iter", "map", "flat_map", "iter"}
-    ctx.add("DET-3", "argument-order", set(methods) <= allowed and local_of(root) is not None, site,
-            "argument list consumed in order through %s (no sort/rev/filter on the arguments themselves)" % methods)
-    par = [p for p in b["params"] if p.get("name") == local_of(root)]
-    ctx.add("DET-3", "root-is-param", bool(par), site, "iterable root is the parameter `%s`" % local_of(root))
+    if not outs:
+        raise AnalysisGap("Files::sort: no write into the buckets found")
+    hir_loops = len(hq.for_loops(b["body"])) + len([c for c in hq.calls(b["body"], method="for_each")])
+    nests = {tuple(o["nest"]) for o in outs}
+    ctx.add("DET-3", "single-pass", len(nests) == 1 and all(o["raw_loops"] == hir_loops for o in outs), site,
+            "the paths are bucketed in one pass over the argument list (loops in Files::sort: %d, all of them enclose the write); a second pass lets "
+            "one kind of argument overtake another" % hir_loops)
+    params = [("param", p.get("name")) for p in b["params"]]
+    nest = list(sorted(nests, key=len)[-1])
+    want = [params[0], ("call", "WalkDir::sort_by_file_name", (("call", "WalkDir::new", (("each", params[0]),)),))] if params else None
+    ctx.add("DET-3", "walkdir-sorted", nest == want and total_new == 1, site,
+            "the loop nest is: every argument in order, then WalkDir::new(argument).sort_by_file_name() (WalkDir::new references in the crate: %d): %s"
+            % (total_new, [sym.pretty(n)[:140] for n in nest]))
+    ctx.add("DET-3", "argument-order", bool(nest) and nest[0] == (params[0] if params else None), site,
+            "the argument list itself is consumed in order (no sort / rev / filter on it): outermost iterable %s" % (sym.pretty(nest[0])[:100] if nest else None))
 
 
-def eval_acc(e):
-    """Evaluate an accessor body to a small term: ('elem', bucket, idx) | ('or', a, b) | ('tag', T, x) | ('ife', bucket, a, b)."""
-    e = strip(e)
-    k = e.get("k")
-    if k == "Block" and not e.get("stmts") and "expr" in e:
-        return eval_acc(e["expr"])
-    if k == "MethodCall":
-        m = e["method"]
-        recv = e["recv"]
-        if m in ("first", "get", "last"):
-            fp = hq.field_path(recv)
-            if fp and fp.startswith("self."):
-                if m == "first":
-                    return ("elem", fp[5:], 0)
-                if m == "get":
-                    a = strip(e["args"][0])
-                    if a.get("k") == "Lit":
-                        return ("elem", fp[5:], a["v"])
-                return ("unknown", m)
-        if m == "map" and len(e["args"]) == 1:
-            c = ctor_of_path(e["args"][0])
-            inner = eval_acc(recv)
-            if c:
-                return ("tag", c, inner)
-            return ("unknown", "map")
-        if m in ("or_else", "or"):
-            a = strip(e["args"][0])
-            alt = eval_acc(a["body"]) if a.get("k") == "Closure" else eval_acc(a)
-            return ("or", eval_acc(recv), alt)
-    if k == "If":
-        c = strip(e["cond"])
-        neg = False
-        if c.get("k") == "Unary" and c.get("op") == "Not":
-            neg = True
-            c = strip(c["e"])
-        if c.get("k") == "MethodCall" and c["method"] == "is_empty":
-            fp = hq.field_path(c["recv"])
-            if fp and fp.startswith("self.") and "else" in e:
-                t, f = eval_acc(e["then"]), eval_acc(e["else"])
-                if neg:
-                    t, f = f, t
-                return ("ife", fp[5:], t, f)
-    return ("unknown", k)
+BUCKETS = ["specifications", "programs", "user_guides", "proof_outlines", "other"]
 
 
-def ctor_of_path(e):
-    e = strip(e)
-    if e.get("k") == "Path" and e.get("res", {}).get("r") == "ctor":
-        return e["res"].get("variant")
-    return None
+def _first(l):
+    return ("Some", l[0]) if l else ("None",)
 
 
+def _get(l, i):
+    return ("Some", l[i]) if len(l) > i else ("None",)
+
+
+def _either(tag, o):
+    return ("Some", ("ctor", "Either::" + tag, (("0", o[1]),))) if o != ("None",) else o
+
+
+# the role table: which file (bucket, position) each accessor yields, as a function of the bucket contents
 REF_ACC = {
-    "left": ("elem", "programs", 0),
-    "right": ("elem", "programs", 1),
-    "specification": ("or", ("tag", "Right", ("elem", "specifications", 0)), ("tag", "Left", ("elem", "programs", 0))),
-    "program": ("ife", "specifications", ("elem", "programs", 1), ("elem", "programs", 0)),
-    "user_guide": ("elem", "user_guides", 0),
-    "proof_outline": ("elem", "proof_outlines", 0),
+    "left": lambda b: _first(b["programs"]),
+    "right": lambda b: _get(b["programs"], 1),
+    "specification": lambda b: _either("Right", _first(b["specifications"])) if b["specifications"] else _either("Left", _first(b["programs"])),
+    "program": lambda b: _get(b["programs"], 1) if not b["specifications"] else _first(b["programs"]),
+    "user_guide": lambda b: _first(b["user_guides"]),
+    "proof_outline": lambda b: _first(b["proof_outlines"]),
 }
 
 
 def rule_accessors(ctx):
+    """every accessor is evaluated on every combination of bucket lengths (lists of distinct tokens) and must yield the file of the role table"""
+    import itertools
+    from .. import sym, absval
     fx = ctx.facts
     for name, ref in REF_ACC.items():
         b = fx.fn("Files::" + name)
-        got = eval_acc(b["body"])
-        if "unknown" in repr(got):
-            ctx.gap("TAB-ACC", name, ctx.site(b), "accessor body outside the evaluator's idioms: %r" % (got,))
-        else:
-            ctx.add("TAB-ACC", name, got == ref, ctx.site(b), "Files::%s = %r (reference %r)" % (name, got, ref), construct=got)
+        ev = sym.Eval(fx, inline_depth=4, inline=lambda dp: "::files::Files::" in dp)
+        term = ev.function(b)
+        lits = [x[1] for x in sym.subterms(term) if isinstance(x, tuple) and x[:1] == ("lit",) and len(x) == 2 and isinstance(x[1], int) and not isinstance(x[1], bool)]
+        top = max([1] + [abs(v) for v in lits]) + 2
+        bad = None
+        n = 0
+        try:
+            for lens in itertools.product(range(0, top + 1), range(0, top + 1), (0, 1, 2), (0, 1, 2), (0, 1)):
+                buckets = {bk: ["%s[%d]" % (bk, i) for i in range(l)] for bk, l in zip(BUCKETS, lens)}
+                env = {}
+                for bk, l in buckets.items():
+                    env[("place", "self." + bk)] = l
+                    env[("fieldof", ("param", "self"), bk)] = l
+                got = absval.evaluate(term, env)
+                n += 1
+                if got != ref(buckets):
+                    bad = (dict(zip(BUCKETS, lens)), got, ref(buckets))
+                    break
+        except absval.Unknown as e:
+            ctx.gap("TAB-ACC", name, ctx.site(b), "accessor body outside the evaluator's model: %s" % e)
+            continue
+        ctx.add("TAB-ACC", name, bad is None, ctx.site(b),
+                "Files::%s yields the file of the role table for all %d combinations of bucket lengths (up to %d)%s" % (
+                    name, n, top, "" if bad is None else "; with lengths %s it yields %r, the role table says %r" % bad), construct=sym.pretty(term)[:400])
 
 
 # task field -> (accessor, parser node type(s))
@@ -192,9 +199,9 @@ REF_FLOW = {
 ACCESSORS = set(REF_ACC)
 
 
-def accessor_calls(e):
+def accessor_calls(e, body=None):
     out = set()
-    for n in walk(e):
+    for n in (hq.walk_through_locals(body, e) if body is not None else walk(e)):
         if n.get("k") == "MethodCall":
             c = callee(n) or ""
             if c.startswith(FILES + "::") or "::files::Files::" in c:
@@ -202,9 +209,9 @@ def accessor_calls(e):
     return out
 
 
-def parser_types(e):
+def parser_types(e, body=None):
     out = set()
-    for n in walk(e):
+    for n in (hq.walk_through_locals(body, e) if body is not None else walk(e)):
         if n.get("k") == "Path" and "callee" in n and (n["callee"].endswith("Node::from_file") or n["callee"].endswith("Node::from_stdin")):
             # the function type names the node: fn(..) -> Result<T, ..>
             t = n.get("ty", "")
@@ -228,20 +235,20 @@ def rule_flow_roles(ctx):
             key = (adt, f["name"])
             if key not in REF_FLOW:
                 # non-file fields must not touch the file accessors
-                acc = accessor_calls(f["e"])
+                acc = accessor_calls(f["e"], b["body"])
                 ctx.add("FLOW-ROLE", "%s.%s:no-file" % key, not acc, site, "flag field reads file accessors %s" % sorted(acc), nontrivial=False)
                 continue
             found += 1
             acc, want_parsers = REF_FLOW[key]
-            got_acc = accessor_calls(f["e"])
-            got_parsers = parser_types(f["e"])
+            got_acc = accessor_calls(f["e"], b["body"])
+            got_parsers = parser_types(f["e"], b["body"])
             ctx.add("FLOW-ROLE", "%s.%s" % key, got_acc == acc and got_parsers == want_parsers, ctx.site(b, f["e"]),
                     "field %s.%s is fed by Files::%s through parser(s) %s (reference: %s via %s)" % (
                         adt, f["name"], sorted(got_acc), sorted(got_parsers), sorted(acc), sorted(want_parsers)),
                     construct={"accessors": sorted(got_acc), "parsers": sorted(got_parsers)})
             if key == ("ExternalEquivalenceTask", "specification"):
                 # Either tags preserved: Left(p) -> Left(Program::from_file(p)), Right(s) -> Right(Specification::from_file(s))
-                ms = [m for m in walk(f["e"]) if m.get("k") == "Match" and m.get("src") == "Normal"]
+                ms = [m for m in hq.walk_through_locals(b["body"], f["e"]) if m.get("k") == "Match" and m.get("src") == "Normal"]
                 ok = False
                 detail = []
                 for m in ms:
